@@ -13,18 +13,18 @@ PINS = {
     'C05': ['exec_container'],
     'C06': ['sim_loop', 'status_queries', 'exec_executor'],
     'C07': ['sim_loop', 'exec_executor', 'exec_container', 'param_defaults', 'sched_registry', 'workload_gen'],
-    'C08': ['sim_loop', 'dag_iter', 'exec_executor', 'param_defaults', 'sched_registry', 'workload_gen'],
+    'C08': ['sim_loop', 'dag_iter', 'exec_executor', 'param_defaults', 'sched_registry', 'workload_gen', 'sched_wrapper'],
     'C09': ['exec_pool', 'exec_executor', 'exec_assignment', 'exec_container'],
     'C10': ['exec_pool', 'exec_container'],
     'C11': ['exec_pool', 'exec_container'],
-    'C12': ['status_queries'],
-    'C13': ['trace_replay', 'csv_io'],
+    'C12': ['status_queries', 'sched_wrapper', 'waiting_queue'],
+    'C13': ['trace_replay', 'csv_io', 'cli_run'],
     'C14': ['trace_replay', 'csv_io'],
     'C15': ['workload_gen'],
-    'C16': ['status_queries'],
-    'C17': ['status_queries'],
-    'C18': ['status_queries'],
-    'C19': ['sim_loop'],
+    'C16': ['status_queries', 'sched_wrapper', 'waiting_queue'],
+    'C17': ['status_queries', 'sched_wrapper'],
+    'C18': ['status_queries', 'sched_wrapper'],
+    'C19': ['sim_loop', 'sched_wrapper'],
 }
 IMPORTS = 'From Eudoxia Require Import Model.ExecSrc.\n'
 
